@@ -90,6 +90,54 @@ def run(prog, rep):
     rep.rule('R7', 'constraint tables equal the pinned (documented) tables', floor=20)
     check_pinned_tables(prog, rep, 'R7')
 
+    # R8: the tables are shared by every topology of the process: nothing stores into them or into one of their rows
+    rep.rule('R8', 'no statement of the library stores into a constraint table or into a row taken from one', floor=3)
+    TABLES = ('ServiceConstraints', 'NodeConstraints', 'LinkConstraints')
+    nrows = 0
+    for m_, c_, f_ in prog.all_functions():
+        if not m_.name.startswith('fim.'):
+            continue
+        mentions = [x for x in ast.walk(f_) if isinstance(x, ast.Attribute) and x.attr in TABLES]
+        if not mentions:
+            continue
+        nrows += 1
+        fq8 = (c_.name + '.' if c_ else '') + f_.name
+        env8 = local_env(f_)
+        # locals that name a row (or the table): bound from an expression that reads a table
+        rows = set()
+        for a_ in walk_no_nested(f_):
+            if isinstance(a_, ast.Assign) and len(a_.targets) == 1 and isinstance(a_.targets[0], ast.Name) and \
+                    any(isinstance(x, ast.Attribute) and x.attr in TABLES for x in ast.walk(a_.value)) and \
+                    isinstance(a_.value, (ast.Subscript, ast.Attribute, ast.Call)) and \
+                    not (isinstance(a_.value, ast.Call) and call_name(a_.value) in ('copy', 'deepcopy', 'replace', '_replace', 'dict', 'list')):
+                rows.add(a_.targets[0].id)
+        stores = []
+        for n in walk_no_nested(f_):
+            tgts = []
+            if isinstance(n, ast.Assign):
+                tgts = n.targets
+            elif isinstance(n, (ast.AugAssign, ast.AnnAssign)):
+                tgts = [n.target]
+            elif isinstance(n, ast.Delete):
+                tgts = n.targets
+            for t in tgts:
+                for t2 in (t.elts if isinstance(t, (ast.Tuple, ast.List)) else [t]):
+                    if isinstance(t2, (ast.Attribute, ast.Subscript)):
+                        base = t2.value
+                        if any(isinstance(x, ast.Attribute) and x.attr in TABLES for x in ast.walk(base)) or \
+                                any(isinstance(x, ast.Name) and x.id in rows for x in ast.walk(base)):
+                            stores.append((n, t2))
+            if isinstance(n, ast.Call) and isinstance(n.func, ast.Attribute) and n.func.attr in ('update', 'pop', 'clear', 'setdefault', 'popitem', '__setattr__') and \
+                    (any(isinstance(x, ast.Attribute) and x.attr in TABLES for x in ast.walk(n.func.value)) or
+                     any(isinstance(x, ast.Name) and x.id in rows for x in ast.walk(n.func.value))):
+                stores.append((n, n.func))
+        rep.instance('R8', f'{fq8}: reads a constraint table; rows named {sorted(rows)}; stores into table or row: {len(stores)}')
+        for n, t2 in stores:
+            rep.violation('R8', loc(m_, n), fq8, f'{norm(n, 80)} stores into a constraint table row',
+                          f'{norm(t2, 60)} is (part of) the class-level constraint table, one object shared by all topologies of the process: '
+                          f'after this statement has run once (for instance while validating a substrate model) every later validation sees '
+                          f'the changed limits, and services the documented table forbids are accepted')
+
     # R3 / R4 on the validation code of the service
     uns = prog.cls(UNS)
     vmod = uns.module
